@@ -38,22 +38,76 @@ Qed.
 Lemma nlist_eqb_eq : forall a b, list_eqb N.eqb a b = true -> a = b.
 Proof. intros a b H. apply (list_eqb_eq N.eqb); auto. intros x y. apply N.eqb_eq. Qed.
 
+Lemma no_append_run_events : forall v c h job full b fail core evs ok,
+  run_events v c h job full b fail core = (evs, ok) -> no_append evs.
+Proof.
+  intros v c h job full b fail core evs ok H. unfold run_events in H.
+  destruct (if full then None else job).
+  - apply cut_calls_prefix in H. destruct H as (l1 & l2 & _ & -> & _). apply no_append_pairs.
+  - destruct (full_pages c h b (fuel_of h c) 0). apply cut_calls_prefix in H.
+    destruct H as (l1 & l2 & _ & -> & _). apply no_append_pairs.
+Qed.
+
+Lemma after_append_none : forall evs, no_append evs -> after_append evs = None.
+Proof. induction evs as [|e evs IH]; cbn [no_append after_append]; auto. destruct e; [intros []|auto]. Qed.
+
+Lemma after_append_mid : forall e1 e2 ds vs, no_append e1 -> after_append (e1 ++ EvAppend ds vs :: e2) = Some e2.
+Proof.
+  induction e1 as [|e e1 IH]; intros e2 ds vs H; cbn [app no_append after_append] in *; auto.
+  destruct e; [destruct H|auto].
+Qed.
+
+(** what agreement on one run gives: the observed "write performed" flag is the model's, and the ids of a
+    successful run are those of the model's events *)
+Lemma run_agree_facts : forall evs ok job r,
+  run_agree evs ok job r = true ->
+  (tr_middone r = match after_append evs with Some _ => true | None => false end) /\
+  ok = tr_ok r /\ (ok = true -> tr_emitted r = sortN (concat (ev_ents evs))).
+Proof.
+  intros evs ok job r H. unfold run_agree in H. repeat (apply andb_true_iff in H; destruct H as [H ?]).
+  split; [|split].
+  - destruct (after_append evs).
+    + apply andb_true_iff in H. tauto.
+    + now apply negb_true_iff in H.
+  - match goal with H : Bool.eqb ok _ = true |- _ => now apply eqb_prop in H end.
+  - intros ->. match goal with H : list_eqb N.eqb _ (tr_emitted r) = true |- _ =>
+      apply nlist_eqb_eq in H; now rewrite H end.
+Qed.
+
+Lemma ev_ents_insert : forall e1 e2 ds vs x,
+  In x (concat (ev_ents (e1 ++ EvAppend ds vs :: e2))) -> In x (ents_of (e1 ++ e2)).
+Proof.
+  intros e1 e2 ds vs x H. apply ev_ents_sub in H. rewrite ents_of_app in *. exact H.
+Qed.
+
 Lemma agree_ops_main : forall v c s ops,
   agree_ops v c s ops = true -> spec_main_ops c (s_hub s) ops = true.
 Proof.
   intros v c s ops. revert s. induction ops as [|o ops IH]; intros s H; cbn [agree_ops spec_main_ops] in *; auto.
   destruct (step v (cfg_of c) s (op_of c o)) as [[s' evs] ok] eqn:E.
   apply andb_true_iff in H. destruct H as [Hr H]. specialize (IH _ H).
-  destruct o as [k vs|r]; cbn [op_of step] in E.
-  - injection E as <- _ _. exact IH.
-  - destruct (run_events v (cfg_of c) (s_hub s) (s_job s) (tr_full r) (tc_batch c) (tr_fail r) (tr_core r)) as [evs' ok'] eqn:Er.
-    injection E as <- <- <-. cbn [s_hub] in IH. rewrite IH, andb_true_r.
-    unfold run_agree in Hr. repeat (apply andb_true_iff in Hr; destruct Hr as [Hr ?]).
-    apply eqb_prop in Hr. subst ok'. destruct (tr_ok r) eqn:Eok; [|reflexivity]. cbn [negb orb].
-    match goal with H : list_eqb N.eqb _ _ = true |- _ => apply nlist_eqb_eq in H; rename H into Hem end.
-    unfold subsetN. apply forallb_forall. intros x Hx. apply memN_In. rewrite <- Hem in Hx.
-    apply (proj1 (sortN_In _ _)) in Hx. apply ev_ents_sub in Hx.
-    exact (run_events_main _ _ _ _ _ _ _ _ _ _ Er x Hx).
+  destruct o as [k vs|r]; cbn [op_of] in E.
+  - cbn [step] in E. injection E as <- _ _. exact IH.
+  - apply run_agree_facts in Hr. destruct Hr as (Hmd & Hok & Hem).
+    assert (Hgoal : s_hub s' = run_hub (s_hub s) r /\
+                    forall x, In x (concat (ev_ents evs)) -> In x (map v_id (feed_of (s_hub s') (tc_main c)))).
+    { unfold run_hub. destruct (tr_mid r) as [[[k ds] vs]|]; cbn [step] in E.
+      - destruct (run_events v (cfg_of c) (s_hub s) (s_job s) true (tc_batch c) (tr_fail r) (tr_core r)) as [evs0 ok0] eqn:Er.
+        destruct (insert_mid evs0 k (EvAppend ds vs)) as [evs1 ins] eqn:Ei. injection E as <- <- <-. cbn [s_hub].
+        pose proof (no_append_run_events _ _ _ _ _ _ _ _ _ _ Er) as Hna.
+        destruct (insert_mid_spec _ _ _ _ _ Ei) as [[-> ->]|(-> & e1 & e2 & -> & ->)].
+        + rewrite (after_append_none _ Hna) in Hmd. rewrite Hmd. split; auto. intros x Hx.
+          apply ev_ents_sub in Hx. exact (run_events_main _ _ _ _ _ _ _ _ _ _ Er x Hx).
+        + apply no_append_app in Hna. rewrite (after_append_mid _ _ _ _ (proj1 Hna)) in Hmd. rewrite Hmd.
+          split; auto. intros x Hx. apply ev_ents_insert in Hx.
+          apply (main_ids_append (s_hub s) (cfg_of c) ds vs). exact (run_events_main _ _ _ _ _ _ _ _ _ _ Er x Hx).
+      - destruct (run_events v (cfg_of c) (s_hub s) (s_job s) (tr_full r) (tc_batch c) (tr_fail r) (tr_core r)) as [evs0 ok0] eqn:Er.
+        injection E as <- <- <-. cbn [s_hub]. split; auto. intros x Hx. apply ev_ents_sub in Hx.
+        exact (run_events_main _ _ _ _ _ _ _ _ _ _ Er x Hx). }
+    destruct Hgoal as [Hhub Hsub]. rewrite <- Hhub, IH, andb_true_r.
+    destruct (tr_ok r) eqn:Eok; [|reflexivity]. cbn [negb orb].
+    unfold subsetN. apply forallb_forall. intros x Hx. apply memN_In. rewrite (Hem Hok) in Hx.
+    apply (proj1 (sortN_In _ _)) in Hx. auto.
 Qed.
 
 Theorem agree_implies_main_only : forall v c, agree v c = true -> spec_main_only c = true.
